@@ -27,11 +27,18 @@ import (
 	"verif/internal/h"
 )
 
-const repo = "/repo"
+// repo is the tree the checks rebuild from. It is /repo; VERIF_REPO overrides
+// it only for experiments against scratch worktrees (seeded-change trials
+// while other work uses /repo): the workers are then built with a generated
+// -modfile whose replace directive points there.
+var repo = "/repo"
 
 var verifDir string
 
 func main() {
+	if v := os.Getenv("VERIF_REPO"); v != "" {
+		repo = v
+	}
 	wd, _ := os.Getwd()
 	verifDir = wd
 	if _, err := os.Stat(filepath.Join(verifDir, "properties.jsonl")); err != nil {
@@ -185,6 +192,13 @@ func buildWorker(p *prop, ph *phase, outDir string) (string, *overlayInfo, error
 	}
 	bin := filepath.Join(outDir, "bin-"+ph.Name)
 	args := []string{"build", "-tags", "verif", "-overlay", ov.Path, "-o", bin}
+	if repo != "/repo" {
+		mf, err := altModfile(outDir)
+		if err != nil {
+			return "", ov, err
+		}
+		args = append(args, "-modfile="+mf)
+	}
 	if ph.Race {
 		args = append(args, "-race")
 	}
@@ -197,6 +211,22 @@ func buildWorker(p *prop, ph *phase, outDir string) (string, *overlayInfo, error
 		return "", ov, fmt.Errorf("go %s: %v\n%s", strings.Join(args, " "), err, out)
 	}
 	return bin, ov, nil
+}
+
+// altModfile writes a copy of go.mod whose nbio replace points at repo.
+func altModfile(outDir string) (string, error) {
+	b, err := os.ReadFile(filepath.Join(verifDir, "go.mod"))
+	if err != nil {
+		return "", err
+	}
+	nb := strings.Replace(string(b), "=> /repo", "=> "+repo, 1)
+	mf := filepath.Join(outDir, "alt.mod")
+	if err := os.WriteFile(mf, []byte(nb), 0o644); err != nil {
+		return "", err
+	}
+	sum, _ := os.ReadFile(filepath.Join(verifDir, "go.sum"))
+	_ = os.WriteFile(filepath.Join(outDir, "alt.sum"), sum, 0o644)
+	return mf, nil
 }
 
 type procOut struct {
@@ -317,7 +347,7 @@ func runProp(id, tier, only string) int {
 		return 64
 	}
 	start := time.Now()
-	outDir := filepath.Join(verifDir, "out", p.ID)
+	outDir := filepath.Join(verifDir, "out", p.ID+os.Getenv("VERIF_OUT_SUFFIX"))
 	_ = os.MkdirAll(outDir, 0o755)
 	// stale replay files of earlier runs are removed so paths printed now are from now
 	if m, _ := filepath.Glob(filepath.Join(outDir, "replay-*.json")); m != nil {
@@ -326,7 +356,7 @@ func runProp(id, tier, only string) int {
 		}
 	}
 	_ = os.MkdirAll(filepath.Join(verifDir, "evidence"), 0o755)
-	evPath := filepath.Join(verifDir, "evidence", p.ID+".json")
+	evPath := filepath.Join(verifDir, "evidence", p.ID+os.Getenv("VERIF_OUT_SUFFIX")+".json")
 	_ = os.Remove(evPath)
 
 	m := &merged{nt: map[string]struct{}{}, counters: map[string]int64{}, sets: map[string]map[string]struct{}{}, shimSites: map[string]int{}, raceUnattr: map[string]int{}}
